@@ -18,10 +18,12 @@ STATUS = """
 > `vlib/servers.py` (real servers for C16/C17), `vlib/fuzz.py` + `vlib/fuzz_brine.py` (atheris campaign), `props/cNN.py`
 > (one driver per property), `tools/` (manifest generator, sensitivity runner, seeded-change harvesting / re-validation).
 > No source hook was needed in rpyc (`MANIFEST.hooks.source_commits` is empty); 19 `fix:` commits repair genuine defects
-> the checks found (§3).
+> the checks found (§3); 144 seeded changes from four rounds of independent sub-agents are kept under `seeded/` (§9).
 """
 if "**Status (as built).**" not in s:
     s = s.replace("Conventions used below\n", STATUS + "\nConventions used below\n", 1)
+else:
+    s = re.sub(r"\n> \*\*Status \(as built\)\.\*\*.*?\(§3\)\.\n", lambda _m: STATUS, s, count=1, flags=re.S)
 
 ASBUILT = {
     "C01": "Built as designed (`props/c01.py`). Two generators are mixed: the random grammar and a *constructive ping-pong* generator "
